@@ -331,7 +331,17 @@ where
     M::Terminal: crate::AsciiDisplay,
 {
     writeln!(file, ".ver {}", settings.version)?;
-    let ascii = settings.ascii || !ExportSettings::binary_supported(manager);
+    // Binary mode has no terminal descriptions: the importer maps every
+    // terminal node to "T". `binary_supported()` only knows the current number
+    // of terminals (e.g., 1 for an MTBDD that currently holds a single
+    // constant), so additionally require that this is the terminal we have.
+    let ascii = settings.ascii
+        || !ExportSettings::binary_supported(manager)
+        || manager.terminals().any(|t| {
+            let is_t = Ascii(&*manager.get_node(&t).unwrap_terminal()).to_string() == "T";
+            manager.drop_edge(t);
+            !is_t
+        });
     writeln!(file, ".mode {}", if ascii { 'A' } else { 'B' })?;
 
     // TODO: other .varinfo modes?
